@@ -295,8 +295,7 @@ func (e *Exec) libModel(st *State, callee *ssa.Function, cc *ssa.CallCommon, arg
 		// deterministic: the textual form is a function of the address bytes
 		used()
 		e.eng.spec.need(e.sc, "ip_str")
-		arr, off, ln := e.sliceArr(st, args[0], tByte)
-		v := Val{T: resT, S: e.sc.define("ipstr", "Str", fmt.Sprintf("(ip_str %s %s %s)", arr, off, ln))}
+		v := Val{T: resT, S: e.sc.define("ipstr", "Str", fmt.Sprintf("(ip_str %s)", args[0].S))}
 		e.assumeWF(st, v)
 		set(v)
 		return true, true, nil
@@ -306,8 +305,7 @@ func (e *Exec) libModel(st *State, callee *ssa.Function, cc *ssa.CallCommon, arg
 		}
 		used()
 		e.eng.spec.need(e.sc, "ip_unspec")
-		arr, off, ln := e.sliceArr(st, args[0], tByte)
-		set(Val{T: resT, S: e.sc.define("unspec", "Bool", fmt.Sprintf("(ip_unspec %s %s %s)", arr, off, ln))})
+		set(Val{T: resT, S: e.sc.define("unspec", "Bool", fmt.Sprintf("(ip_unspec %s)", args[0].S))})
 		return true, true, nil
 	case "sort.Sort", "sort.Stable":
 		// the elements of the sorted slice are permuted (what order results is not modelled).
